@@ -6,6 +6,7 @@ import (
 	"sync/atomic"
 
 	"github.com/openfga/openfga/internal/listobjects/pipeline/internal/track"
+	"github.com/openfga/openfga/internal/verifhook"
 )
 
 // Membership represents a worker's participation in a [CycleGroup].
@@ -47,6 +48,7 @@ func (m *Membership) IsLeader() bool {
 
 // SignalReady indicates that this member's non-cyclical inputs are exhausted.
 func (m *Membership) SignalReady() {
+	verifhook.Point("cycle.signalready", m.label)
 	m.reporter.Report()
 	m.reporter.Dec()
 }
@@ -61,6 +63,7 @@ func (m *Membership) WaitForAllReady(ctx context.Context) bool {
 // Sleep blocks until this member is woken by its predecessor in the
 // teardown cascade, or until ctx is cancelled.
 func (m *Membership) Sleep(ctx context.Context) {
+	verifhook.Point("cycle.sleep", m.label)
 	select {
 	case <-m.wake:
 	case <-ctx.Done():
@@ -70,6 +73,7 @@ func (m *Membership) Sleep(ctx context.Context) {
 // Wake unblocks a pending Sleep call. It is safe to call multiple times;
 // only the first call has any effect.
 func (m *Membership) Wake() {
+	verifhook.Point("cycle.wake", m.label)
 	if !m.awake.Swap(true) {
 		close(m.wake)
 	}
